@@ -139,7 +139,50 @@ CLAIMS = {
 PENDING = ["C04", "C05", "C06", "C07", "C08", "C09", "C10", "C11", "C12", "C13", "C14", "C15", "C16", "C17", "C18", "C19", "C20"]
 
 
+OVERRIDES = {
+ "C04": dict(cat="other", design="0.3, 7/C04",
+   text=("Deductive (writer side): the codec block writers (null, deflate, bzip2, xz) append exactly the block payload the "
+         "layout specification prescribes (length prefix + codec payload, codecs as assumed externals with inverse axioms); "
+         "Writer.dump / write / flush are specified by what they append to the user's stream and what they leave in the pending "
+         "buffer (a block is emitted when the buffer reaches the sync interval; flush emits iff the buffer holds bytes OR records), "
+         "all obligations discharged for every codec entry of BLOCK_WRITERS usable in this sandbox. Not deductive: header, reader "
+         "side, schema self-description and the end-to-end round trip, which the bounded stand-in checks; hence 'other'."),
+   note="Trusted: zlib/bz2/lzma contracts and inverse axioms, stream model, write_data contract from C01 (write_union assumed); snappy/zstandard/lz4 not importable here and not considered.",
+   technique="contract-based deductive verification of the writer-side functions; bounded container round trips against an independent parser"),
+ "C06": dict(cat="other", design="0.3, 7/C06",
+   text=("Deductive: for every BinaryDecoder method, (a) on valid input exactly the encoding is consumed, (b) with no assumption "
+         "on the input a read that comes back short makes the method raise (eof_hit unchanged on every normal return). The container "
+         "iterators and the prefix conclusion (paper lemma L-prefix-file) are exercised by the bounded stand-in: every cut offset, "
+         "values larger than 64 KiB, every sync-marker byte."),
+   note="Trusted: stream model; container iterators _iter_avro_records/_iter_avro_blocks not under contract.",
+   technique="contract-based deductive verification of the decoder's short-read behaviour; bounded truncation / corruption enumeration"),
+ "C07": dict(cat="other", design="0.3, 7/C07",
+   text=("Deductive: Writer.dump / write / flush / write_block and the codec block writers under contract: every operation appends "
+         "at the append position only (so the header is never touched), write_block first emits the pending block, and -- behaviour "
+         "'anydatum' -- a write that raises leaves buffer, count and file exactly as they were. The induction over operation histories "
+         "(and the append/re-open path of Writer.__init__) is not mechanised: the bounded stand-in replays random histories."),
+   note="Trusted: write_data[anydatum] (append-only also when raising) is an assumed contract; stream model; codecs.",
+   technique="contract-based deductive verification of each Writer operation incl. exceptional postconditions; bounded history replay"),
+ "C09": dict(cat="other", design="0.3, 7/C09",
+   text=("Deductive: frame obligations (provenance) for every store site of the functions taking part in branch selection and naming "
+         "-- the choice can depend on schema, datum and options only, never on module-level or default-argument state. The selection "
+         "rule itself (first conforming non-record branch, float->double deferral, most shared fields) and the read/rewrite closure are "
+         "checked by the bounded stand-in against the selection oracle."),
+   note="Trusted: provenance rules and declarations (contracts/_frames.py); write_union not functionally verified.",
+   technique="frame obligations by provenance analysis; bounded differential check against an executable selection oracle"),
+ "C14": dict(cat="proof", design="0.3, 7/C14",
+   text=("rabin_fingerprint: the table is produced by executing the real construction loops; the main loop's invariant "
+         "result == RABIN(data[:i]) against the specification's bit-by-bit polynomial division is discharged over 64-bit vectors for "
+         "all byte strings; the result is the 16-hex-digit little-endian form. fingerprint: unknown names raise ValueError, CRC-64-AVRO "
+         "goes to rabin_fingerprint of the UTF-8 bytes, SHA-256/MD5 map to sha256/md5, every other advertised name is that hashlib digest. "
+         "All 9 obligations discharged; bounded differential run in addition."),
+   note="Trusted: hashlib, int.to_bytes / bytes.hex, str.encode (assumed externals); z3 bit-blasting after abstraction of non-bit-vector terms.",
+   technique="contract-based deductive verification (loop invariant over 64-bit vectors against the bitwise CRC definition)"),
+}
+
+
 def main():
+    CLAIMS.update(OVERRIDES)
     checks = []
     for pid, c in sorted(CLAIMS.items()):
         checks.append({
